@@ -309,17 +309,20 @@ PROPS["C02"] = dict(
 PROPS["C05"] = dict(
     title="Root-only load restriction confines every file read to its kustomization root",
     facts=True,
-    modules=["Kust.Props.C05"],
-    theorems=["Kust.C05.hasPrefix_iff", "Kust.C05.R_prefix", "Kust.C05.word_prefix", "Kust.C05.clean_no_dots", "Kust.C05.restrict_sound",
+    modules=["Kust.Props.C05", "Kust.Props.C05b"],
+    theorems=["Kust.C05.disk_load_confined", "Kust.C05.disk_new_root_checked", "Kust.C05.disk_cleanedAbs_spec", "Kust.C05.resolve_phys",
+              "Kust.C05.hasPrefix_iff", "Kust.C05.R_prefix", "Kust.C05.word_prefix", "Kust.C05.clean_no_dots", "Kust.C05.restrict_sound",
               "Kust.C05.load_confined", "Kust.C05.new_root_rules", "Kust.C05.stack_nodup", "Kust.C05.readers_use_loader"],
-    components=["path.clean", "path.hasprefix", "path.loader"],
+    components=["path.clean", "path.hasprefix", "path.loader", "path.disk"],
     oracle=True,
     n_corr={"quick": 3000, "thorough": 40000}, n_oracle={"quick": 700, "thorough": 8000},
     technique="Lean 4 proof (the string test ConfirmedDir.HasPrefix is exactly the path-component prefix test; Clean leaves no dot segments; restrictor soundness; loader-stack distinctness; decide over the SSA-regenerated list of direct FS reads) + Go/Lean correspondence of Clean/Join, HasPrefix and the loader on the in-memory FS + canary oracle over every path-bearing field on in-memory and on-disk (symlinked) trees",
     level_text="Theorems: for all cleaned directories the containment test written on strings holds iff the root's components are a prefix of the directory's (so /root-evil is "
                "outside /root); Clean of an absolute path has no . / .. / empty segment for every spelling; an accepted load is a file below the root and returns that "
                "file's bytes; new roots are relative existing directories never equal/above a root on the stack, hence pairwise distinct; all direct reads in the build "
-               "closure are the reviewed ones. Symbolic-link resolution (filepath.EvalSymlinks, OS) is NOT modelled: covered by the on-disk oracle only.",
+               "closure are the reviewed ones. On disk (Kust.PathDisk: lexical cleaning, then physical link resolution; tied to the real loader on real "
+               "directory trees with symbolic links by path.disk): whatever links the tree holds, a successful Load returns the content of a file whose "
+               "directory is reached through no link and lies at or below the root; a new root is a link-free directory that is neither a root in use nor above one.",
     level_note=COMMON_NOTE + "The FS model is the in-memory file system (quirks of its root handling included); OS path resolution is outside the model.",
     assumptions=["git/http loaders are outside the domain", "on-disk symlink semantics covered by the oracle"],
     design_ref="DESIGN.md §5 C05",
